@@ -138,9 +138,13 @@ def _check_uint(value, length):
     """bitstring.CreationError when value does not fit (decided by the solver for symbolic values)"""
     if isinstance(value, SymBool):
         value = value._as_int()
-    if value < 0:
+    core.note_use(value)
+    with core.range_check():
+        neg = bool(value < 0)
+        big = (not neg) and not (value < (1 << length))
+    if neg:
         raise _bs.CreationError(f'uint cannot be initialised with a negative number')
-    if not (value < (1 << length)):
+    if big:
         raise _bs.CreationError(f'{value} is too large an unsigned integer for a bitstring of length {length}')
     return core.refine(value, 0, (1 << length) - 1)
 
@@ -252,6 +256,13 @@ class ConstBitStream:
 
     def read(self, fmt):
         if self._sx is None:
+            from . import text
+            if isinstance(fmt, str) and text.has_token(fmt):
+                kind, _, num = fmt.partition(':')
+                n = text.parse_int(num)
+                if isinstance(n, SymInt):
+                    n = n.concrete('bit field width')
+                fmt = f'{kind}:{n}'
             return self._real.read(fmt)
         if isinstance(fmt, int):
             kind, n = 'bits', fmt
@@ -259,7 +270,10 @@ class ConstBitStream:
             kind, n = 'bool', 1
         else:
             kind, _, num = fmt.partition(':')
-            n = int(num)
+            from . import text
+            n = text.parse_int(num) if text.has_token(num) else int(num)
+            if isinstance(n, SymInt):
+                n = n.concrete('bit field width')
             if kind == 'bytes':
                 n *= 8
         if self._pos + n > self._sx.len:
